@@ -136,16 +136,57 @@ func c14Accumulate(r *Run, a *ssa.Alloc, fn *ssa.Function, tr *ipTracer) *c14Acc
 		}
 		return n > 0
 	}
-	stores := map[string][]*ssa.Store{}
+	// an assignment to an accumulator field: in this function, or inside a helper (e.g. a method of the
+	// accumulator type) that receives the accumulator's address at call site `via`
+	type accStore struct {
+		st   *ssa.Store
+		via  *ssa.Call
+		base ssa.Value // the accumulator as the assignment sees it: the variable, or the helper's parameter
+	}
+	stores := map[string][]accStore{}
 	escapes := ""
 	for _, rf := range refs(a) {
 		switch x := rf.(type) {
+		case *ssa.Call:
+			cal := staticCallee(&x.Call)
+			if cal == nil || len(cal.Blocks) == 0 || !r.Prog.IsRuleSite(cal) {
+				escapes = "the accumulator's address escapes"
+				continue
+			}
+			for i, arg := range x.Call.Args {
+				if arg != ssa.Value(a) || i >= len(cal.Params) {
+					continue
+				}
+				prm := cal.Params[i]
+				for _, r1 := range refs(prm) {
+					fa, isFA := r1.(*ssa.FieldAddr)
+					if !isFA {
+						if _, isDbg := r1.(*ssa.DebugRef); !isDbg {
+							escapes = "the accumulator's address escapes inside " + shortFunc(cal)
+						}
+						continue
+					}
+					for _, r2 := range refs(fa) {
+						switch y := r2.(type) {
+						case *ssa.Store:
+							if y.Addr == ssa.Value(fa) {
+								stores[fieldName(fa)] = append(stores[fieldName(fa)], accStore{y, x, prm})
+							} else {
+								escapes = "the address of a counter is stored"
+							}
+						case *ssa.UnOp, *ssa.DebugRef:
+						default:
+							escapes = "the address of a counter escapes"
+						}
+					}
+				}
+			}
 		case *ssa.FieldAddr:
 			for _, r2 := range refs(x) {
 				switch y := r2.(type) {
 				case *ssa.Store:
 					if y.Addr == ssa.Value(x) {
-						stores[fieldName(x)] = append(stores[fieldName(x)], y)
+						stores[fieldName(x)] = append(stores[fieldName(x)], accStore{y, nil, a})
 					} else {
 						escapes = "the address of a counter is stored"
 					}
@@ -176,7 +217,23 @@ func c14Accumulate(r *Run, a *ssa.Alloc, fn *ssa.Function, tr *ipTracer) *c14Acc
 			res.detail[X] = fmt.Sprintf("%d assignments to the accumulator field (exactly one `+=` expected)", len(ss))
 			continue
 		}
-		s := ss[0]
+		rec := ss[0]
+		s := rec.st
+		// where the addition happens as seen from this function: the assignment, or the helper call
+		var at ssa.Instruction = s
+		if rec.via != nil {
+			at = rec.via
+			everyCall := true
+			for _, rb := range rec.via.Call.StaticCallee().Blocks {
+				if returnOf(rb) != nil && !s.Block().Dominates(rb) {
+					everyCall = false
+				}
+			}
+			if !everyCall {
+				res.detail[X] = "the helper " + shortFunc(s.Parent()) + " does not add on every path"
+				continue
+			}
+		}
 		bo, ok := stripIntConv(s.Val).(*ssa.BinOp)
 		if !ok || bo.Op != token.ADD {
 			res.detail[X] = "the assignment is not an addition"
@@ -188,7 +245,7 @@ func c14Accumulate(r *Run, a *ssa.Alloc, fn *ssa.Function, tr *ipTracer) *c14Acc
 				return false
 			}
 			fa, ok := u.X.(*ssa.FieldAddr)
-			return ok && fa.X == ssa.Value(a) && fieldName(fa) == X
+			return ok && fa.X == rec.base && fieldName(fa) == X
 		}
 		var item ssa.Value
 		switch {
@@ -201,6 +258,24 @@ func c14Accumulate(r *Run, a *ssa.Alloc, fn *ssa.Function, tr *ipTracer) *c14Acc
 			continue
 		}
 		root, fld, ok := rsStatusField(item)
+		if !ok && rec.via != nil {
+			// inside the helper the item is a field of a parameter: lift it to the call's argument
+			if prm, pth := accessPath(stripIntConv(item)); len(pth) >= 1 {
+				if pp, isP := prm.(*ssa.Parameter); isP && pp.Parent() == s.Parent() {
+					if i := paramIndex(pp); i >= 0 && i < len(rec.via.Call.Args) {
+						ar, ap := accessPath(rec.via.Call.Args[i])
+						full := append(append([]string{}, ap...), pth...)
+						t := ar.Type()
+						if al, isAl := ar.(*ssa.Alloc); isAl {
+							t = al.Type()
+						}
+						if len(full) == 2 && full[0] == "Status" && isPtrToNamed(t, pkgAPI, "ExtendedDaemonSetReplicaSet") {
+							root, fld, ok = ar, full[1], true
+						}
+					}
+				}
+			}
+		}
 		if !ok {
 			res.detail[X] = "the added value is not a replica set's Status field: " + pathString(item)
 			continue
@@ -209,7 +284,7 @@ func c14Accumulate(r *Run, a *ssa.Alloc, fn *ssa.Function, tr *ipTracer) *c14Acc
 			res.detail[X] = "accumulator field " + X + " adds the replica set's Status." + fld
 			continue
 		}
-		l := loopOfBlock(loops, s.Block())
+		l := loopOfBlock(loops, at.Block())
 		if l == nil || l.rangeOver == nil || l.innerExit {
 			res.detail[X] = "the addition is not inside a loop that visits every index once (range, or for i := 0; i < len(items); i++ without break/return)"
 			continue
@@ -276,7 +351,7 @@ func c14Accumulate(r *Run, a *ssa.Alloc, fn *ssa.Function, tr *ipTracer) *c14Acc
 		}
 		every := true
 		for _, latch := range l.latches {
-			if !s.Block().Dominates(latch) {
+			if !at.Block().Dominates(latch) {
 				every = false
 			}
 		}
@@ -497,8 +572,35 @@ func c14StatusTable(r *Run, reach map[*ssa.Function]bool) {
 							bases = append(bases, st)
 						}
 					}
-					if len(bases) > 0 {
-						for _, b := range bases {
+					// the base value may be stored by a helper called from here on the same status object
+					var baseAt []ssa.Instruction
+					for _, b := range bases {
+						baseAt = append(baseAt, b)
+					}
+					for _, ci := range callsIn(cur) {
+						c, isCall := ci.(*ssa.Call)
+						if !isCall {
+							continue
+						}
+						h := staticCallee(&c.Call)
+						if h == nil || h == fn || len(h.Blocks) == 0 || !r.Prog.IsRuleSite(h) {
+							continue
+						}
+						for i, a := range c.Call.Args {
+							if rt, _ := accessPath(a); rt != root || i >= len(h.Params) {
+								continue
+							}
+							for _, st := range storesOfField(h, pkgAPI, "ExtendedDaemonSetStatus", map[string]bool{"Desired": true}) {
+								if rt2, _ := accessPath(st.Addr); rt2 == ssa.Value(h.Params[i]) {
+									if _, _, isRS := rsStatusField(stripIntConv(st.Val)); isRS {
+										baseAt = append(baseAt, c)
+									}
+								}
+							}
+						}
+					}
+					if len(baseAt) > 0 {
+						for _, b := range baseAt {
 							if canExecuteAfter(at, b) {
 								return false, "the base value of Desired at " + r.Prog.Pos(instrPos(b)) + " can be stored after the canary addition"
 							}
@@ -541,25 +643,88 @@ func c14Planners(r *Run) {
 	}
 	lemma := availableImpliesReady(r, "C14.R2")
 	fields := map[string]bool{"Desired": true, "Ready": true, "Current": true, "Available": true}
-	for _, fn := range sortedFuncs(r.Prog.reachableFuncs(rec)) {
+	reach := r.Prog.reachableFuncs(rec)
+	// A planner is the function in which the stored values are built. A store whose value is a field of
+	// a struct the function received as a parameter (a counters object with a writeTo-style method, or
+	// a helper taking the counters) belongs to the callers: there the call stands for the store.
+	type statusVal struct {
+		v      ssa.Value
+		at     ssa.Instruction // position in the planner: the store, or the call of the helper that stores
+		helper *ssa.Function
+		via    *ssa.Call
+		base   *ssa.Parameter
+	}
+	byPlanner := map[*ssa.Function]map[string][]statusVal{}
+	add := func(pl *ssa.Function, F string, sv statusVal) {
+		if byPlanner[pl] == nil {
+			byPlanner[pl] = map[string][]statusVal{}
+		}
+		byPlanner[pl][F] = append(byPlanner[pl][F], sv)
+	}
+	paramBase := func(v ssa.Value, fn *ssa.Function) *ssa.Parameter {
+		var base ssa.Value
+		switch x := stripIntConv(v).(type) {
+		case *ssa.UnOp:
+			if fa, ok := x.X.(*ssa.FieldAddr); ok && x.Op == token.MUL {
+				base = fa.X
+			}
+		case *ssa.Field:
+			base = x.X
+		}
+		switch y := base.(type) {
+		case *ssa.Parameter:
+			return y
+		case *ssa.Alloc:
+			return wholeStructParam(y)
+		}
+		return nil
+	}
+	for _, fn := range sortedFuncs(reach) {
 		if !r.Prog.IsRuleSite(fn) {
 			continue
 		}
-		sts := storesOfField(fn, pkgAPI, "ExtendedDaemonSetReplicaSetStatus", fields)
-		if len(sts) == 0 {
-			continue
-		}
-		pos := r.Prog.Pos(fn.Pos())
-		vals := map[string]ssa.Value{}
-		dup := false
-		for _, st := range sts {
+		for _, st := range storesOfField(fn, pkgAPI, "ExtendedDaemonSetReplicaSetStatus", fields) {
 			F := fieldName(st.Addr.(*ssa.FieldAddr))
-			if _, seen := vals[F]; seen {
+			if prm := paramBase(st.Val, fn); prm != nil {
+				sites := callSitesOf(fn, reach)
+				every := true
+				for _, rb := range fn.Blocks {
+					if returnOf(rb) != nil && !(st.Block() == rb || st.Block().Dominates(rb)) {
+						every = false
+					}
+				}
+				if len(sites) > 0 && every {
+					for _, cs := range sites {
+						if call, isCall := cs.(*ssa.Call); isCall {
+							add(cs.Parent(), F, statusVal{v: st.Val, at: call, helper: fn, via: call, base: prm})
+						}
+					}
+					continue
+				}
+			}
+			add(fn, F, statusVal{v: st.Val, at: st})
+		}
+	}
+	var planners []*ssa.Function
+	for pl := range byPlanner {
+		planners = append(planners, pl)
+	}
+	sort.Slice(planners, func(i, j int) bool { return funcName(planners[i]) < funcName(planners[j]) })
+	for _, fn := range planners {
+		pos := r.Prog.Pos(fn.Pos())
+		vals := map[string]statusVal{}
+		positions := map[string][]ssa.Instruction{}
+		dup := false
+		for F, svs := range byPlanner[fn] {
+			if len(svs) > 1 {
 				dup = true
 			}
-			vals[F] = st.Val
+			vals[F] = svs[0]
+			for _, sv := range svs {
+				positions[F] = append(positions[F], sv.at)
+			}
 		}
-		c14CountersOnSuccess(r, fn, sts)
+		c14CountersOnSuccess(r, fn, positions)
 		if dup {
 			r.Undecided("C14.R2", "planner counters", pos, shortFunc(fn), "a status counter field is assigned more than once")
 			continue
@@ -577,12 +742,31 @@ func c14Planners(r *Run) {
 		sort.Strings(names)
 		isZero := func(v ssa.Value) bool { c, isC := constInt(stripIntConv(v)); return isC && c == 0 }
 		for _, F := range names {
-			v := vals[F]
+			sv := vals[F]
+			v := sv.v
 			if c, ok := constInt(stripIntConv(v)); ok {
 				consts[F] = c
 				continue
 			}
-			ph, why := cr.resolve(v, fn)
+			var ph *ccell
+			var why string
+			if sv.via == nil {
+				ph, why = cr.resolve(v, fn)
+			} else {
+				// the field of the helper's parameter object, looked up in the object the planner passes
+				var fld string
+				switch x := stripIntConv(v).(type) {
+				case *ssa.UnOp:
+					fld = fieldName(x.X)
+				case *ssa.Field:
+					fld = fieldName(x)
+				}
+				if i := paramIndex(sv.base); i >= 0 && i < len(sv.via.Call.Args) {
+					ph, why = cr.resolveField(sv.via.Call.Args[i], fld, fn, 0)
+				} else {
+					why = "the helper's parameter object cannot be matched with an argument"
+				}
+			}
 			if ph == nil {
 				bad = "NewStatus." + F + " is not a per-node counter of a loop: " + why
 				break
@@ -611,6 +795,9 @@ func c14Planners(r *Run) {
 		}
 		k := newKeyer(loopFn)
 		paths, ok := main.iterPaths(k, 5000)
+		if ok {
+			paths, ok = cr.expand(paths, 5000)
+		}
 		r.paths += len(paths)
 		if !ok {
 			r.Undecided("C14.R2", "planner counters", pos, shortFunc(fn), "path cap exceeded")
@@ -657,6 +844,7 @@ func c14Planners(r *Run) {
 				}
 				if cal := staticCallee(&c.Call); cal != nil && r.Prog.IsRuleSite(cal) {
 					for i, a := range c.Call.Args {
+						a = cr.mapArg(p, a)
 						if inLoop(a) && isPtrToNamed(a.Type(), pkgCoreV1, "Pod") && c14ImpliesTemplateMatch(r, cal, i, tmplMemo, 0) {
 							if subj[c14TemplateMatch] == nil {
 								subj[c14TemplateMatch] = map[string]bool{}
@@ -666,11 +854,11 @@ func c14Planners(r *Run) {
 					}
 				}
 				for _, g := range guards {
-					if calleeName(&c.Call) == g.callee && g.arg < len(c.Call.Args) && inLoop(c.Call.Args[g.arg]) {
+					if calleeName(&c.Call) == g.callee && g.arg >= 0 && g.arg < len(c.Call.Args) && inLoop(cr.mapArg(p, c.Call.Args[g.arg])) {
 						if subj[g.callee] == nil {
 							subj[g.callee] = map[string]bool{}
 						}
-						subj[g.callee][k.key(unwrap(c.Call.Args[g.arg]))] = f.Pol
+						subj[g.callee][k.key(unwrap(cr.mapArg(p, c.Call.Args[g.arg])))] = f.Pol
 					}
 				}
 			}
@@ -795,7 +983,7 @@ func c14Planners(r *Run) {
 // error is not known to be non-nil where the return executes) is dominated by a store of each of
 // NewStatus.{Desired, Ready, Current, Available}: a successful plan always carries freshly counted
 // numbers; stale counters may only accompany an error.
-func c14CountersOnSuccess(r *Run, fn *ssa.Function, sts []*ssa.Store) {
+func c14CountersOnSuccess(r *Run, fn *ssa.Function, positions map[string][]ssa.Instruction) {
 	ff := computeFacts(fn)
 	errIdx := -1
 	res := fn.Signature.Results()
@@ -822,11 +1010,8 @@ func c14CountersOnSuccess(r *Run, fn *ssa.Function, sts []*ssa.Store) {
 		var missing []string
 		for _, F := range []string{"Desired", "Ready", "Current", "Available"} {
 			found := false
-			for _, st := range sts {
-				if fieldName(st.Addr.(*ssa.FieldAddr)) != F {
-					continue
-				}
-				if st.Block() == ret.Block() || st.Block().Dominates(ret.Block()) {
+			for _, at := range positions[F] {
+				if at.Block() == ret.Block() || at.Block().Dominates(ret.Block()) {
 					found = true
 				}
 			}
@@ -875,6 +1060,9 @@ func c14HashEqSubject(r *Run, v ssa.Value, isPod func(ssa.Value) bool) ssa.Value
 		})(l.X) {
 			return pod
 		}
+		if _, isParam := unwrap(l.X).(*ssa.Parameter); isParam && isPod(unwrap(l.X)) {
+			return l.X // the subject was handed over as its annotations map
+		}
 	}
 	return nil
 }
@@ -914,7 +1102,14 @@ func c14ImpliesTemplateMatch(r *Run, fn *ssa.Function, podIdx int, memo map[stri
 			if c, isCall := f.V.(*ssa.Call); isCall {
 				if cal := staticCallee(&c.Call); cal != nil && r.Prog.IsRuleSite(cal) {
 					for i, a := range c.Call.Args {
-						if isPod(a) && c14ImpliesTemplateMatch(r, cal, i, memo, depth+1) {
+						passes := isPod(a)
+						if !passes {
+							// the pod's annotations handed to a predicate that only needs them
+							if _, isMap := a.Type().Underlying().(*types.Map); isMap {
+								passes = annotationsOf(isPod)(a)
+							}
+						}
+						if passes && c14ImpliesTemplateMatch(r, cal, i, memo, depth+1) {
 							found = true
 						}
 					}
@@ -1023,11 +1218,13 @@ func c14CondUpdater(r *Run, reach map[*ssa.Function]bool) {
 	}
 	exists := func(p *Path) bool { return pathFoundElement(p, isCondPtr) }
 	isTrue := map[*ssa.Parameter]string{statusP: "True"}
+	rootFr := &vframe{fn: fn}
 	for _, w := range []struct {
 		field string
 		val   *ssa.Parameter
 	}{{"Reason", reasonP}, {"Message", descP}} {
-		ok, n, bad := elemFieldSet(r, fn, isElem, w.field, w.val, isTrue, exists, false, 0)
+		eng := &setEngine{r: r, field: w.field, val: w.val, strAssume: isTrue}
+		ok, n, bad := eng.check(rootFr, isElem, exists)
 		detail := fmt.Sprintf("%d path(s) with an existing condition and status True", n)
 		if !ok {
 			detail = "not refreshed on path " + bad
@@ -1036,7 +1233,8 @@ func c14CondUpdater(r *Run, reach map[*ssa.Function]bool) {
 			"an existing condition given status True gets its "+w.field+" from the argument on every path (also when the status does not change)", ok && n > 0, detail)
 	}
 	// Status: unless known equal
-	ok, n, bad := elemFieldSet(r, fn, isElem, "Status", statusP, nil, exists, true, 0)
+	eng := &setEngine{r: r, field: "Status", val: statusP, unlessEqual: true}
+	ok, n, bad := eng.check(rootFr, isElem, exists)
 	detail := fmt.Sprintf("%d path(s) with an existing condition whose status is not known to equal the argument", n)
 	if !ok {
 		detail = "not updated on path " + bad
